@@ -649,7 +649,7 @@ def rule_summaries(ctx: Ctx) -> None:
             lps = [e for e in p.effects if e.kind == "loop"]
             ctx.require(len(lps) == 1 and S(lps[0].text) == "self.all_labels", f"{short}: the label loop was not recognised")
             lv = U(lps[0].node.target)
-            per_label = f"self.df.loc[pd.unique(self.get_ground_truth(df={base},status=['TP','FP','TN'],label={lv}).index.get_level_values(level=0))]"
+            per_label = f"self.df.loc[pd.unique(self.get_ground_truth(df={base},label={lv},status=['TP','FP','TN']).index.get_level_values(level=0))]"
             for bp in lps[0].body:
                 cd = {S(c[0]): c[1] for c in bp.conds if isinstance(c, tuple)}
                 is_all = cd.get(f"eq:{lv}=='ALL'")
